@@ -6,6 +6,7 @@
 (*  "peaks" : [evals: <<[mults, biases, ws, s, out]>>]                     *)
 (*  "ann"   : [nin, layers, nout, pdims, neurons, outs, zero_ok]           *)
 (*  "range" : [name, vals: <<F64>>, lo, hi]     (minimising networks)      *)
+(*  "anncache": [hits: <<[nin, nout, layers, same, sd, cd, pd]>>]           *)
 (*  "lorenz": [evals: <<[x, y, z, c, out]>>]    integer states             *)
 (*  "axes"  : [name, evals: <<[expect, out]>>]  exact axis evaluations     *)
 (*  every case: unchanged = 1 if no input array was modified by the call   *)
@@ -66,8 +67,14 @@ Oscillators(c) == IF ~ConstantsOK THEN {"spec-constants"}
        THEN {"coupled-oscillator-equations"} ELSE {}
 Axes(c) == IF \E k \in 1..Len(c.evals) : c.evals[k].expect # c.evals[k].out THEN {"equations:" \o c.name} ELSE {}
 
+\* make_ann keeps the controllers it has built (keyed by the architecture): asking again for an architecture must
+\* give the controller built for exactly that architecture - the same object, with its dimensions
+AnnCache(c) ==
+  IF \E k \in 1..Len(c.hits) : LET h == c.hits[k] IN
+        h.same # 1 \/ h.sd # h.nin \/ h.cd # h.nout \/ h.pd # AnnParamCount(h.nin, h.layers, h.nout)
+  THEN {"cached-controller-is-not-the-one-of-the-architecture"} ELSE {}
 Verdict(c) ==
-  (CASE c.kind = "poly" -> Poly(c) [] c.kind = "plin" -> PLin(c) [] c.kind = "peaks" -> Peaks(c)
+  (CASE c.kind = "anncache" -> AnnCache(c) [] c.kind = "poly" -> Poly(c) [] c.kind = "plin" -> PLin(c) [] c.kind = "peaks" -> Peaks(c)
      [] c.kind = "ann" -> Ann(c) [] c.kind = "range" -> Range(c) [] c.kind = "lorenz" -> Lorenz(c)
      [] c.kind = "axes" -> Axes(c) [] c.kind = "sl" -> StuartLandau(c) [] c.kind = "osc" -> Oscillators(c))
   \cup (IF c.unchanged # 1 THEN {"inputs-modified"} ELSE {})
